@@ -38,6 +38,14 @@ def gen(ctx):
                                  ['advance', 0], ['advance', 0], ['advance', 0], ['advance', 0], ['advance', 1],
                                  ['write', 260000, -5], ['advance', 1], ['advance', 1], ['advance', 1], ['advance', 1], ['advance', 1]],
                       probe=[260000]))
+    # overlapping frames with a write into the overlap between two next() calls; a context left through
+    # an exception while a generator is suspended
+    cases.append(dict(n=N, acts=[['start'] + PARAMS[1], ['advance', 0], ['write', 260000, -7], ['write', 160000, -8],
+                                 ['advance', 0], ['write', 390000, -3], ['advance', 0], ['advance', 0], ['advance', 0],
+                                 ['advance', 0], ['advance', 0]], probe=[260000, 160000, 390000]))
+    cases.append(dict(n=N, acts=[['start'] + PARAMS[0], ['advance', 0], ['enter'], ['readerr'], ['exitexc'], ['advance', 0],
+                                 ['enter'], ['enter'], ['exitexc'], ['advance', 0], ['exit'], ['advance', 0], ['advance', 0]],
+                      probe=[]))
     for _ in range(120 if ctx.quick else 1200):
         acts, gst, depth, probe = [], [], 0, []
         curlen = N
@@ -47,7 +55,7 @@ def gen(ctx):
             live = [i for i, s in enumerate(gst) if s != 'done']
             if live: opts += ['advance'] * 4 + ['close']
             if depth < 2: opts += ['enter']
-            if depth > 0: opts += ['exit']
+            if depth > 0: opts += ['exit', 'exitexc']
             k = r.choice(opts)
             if k == 'start':
                 acts.append(['start'] + r.choice(PARAMS)); gst.append('new')
@@ -57,8 +65,8 @@ def gen(ctx):
                 g = r.choice(live); acts.append(['close', g]); gst[g] = 'done'
             elif k == 'enter':
                 acts.append(['enter']); depth += 1
-            elif k == 'exit':
-                acts.append(['exit']); depth -= 1
+            elif k in ('exit', 'exitexc'):
+                acts.append([k]); depth -= 1
             elif k == 'read':
                 acts.append(['read', r.choice([r.randrange(N), curlen - 1])])
             elif k in ('hide', 'readerr'):
@@ -111,7 +119,7 @@ def act_term(a):
     if k == 'advance': return f"(AAdvance {a[1]}%nat)"
     if k == 'close': return f"(AClose {a[1]}%nat)"
     if k == 'enter': return "AEnter"
-    if k == 'exit': return "AExit"
+    if k in ('exit', 'exitexc'): return "AExit"
     if k == 'read': return f"(ARead {cz(a[1])})"
     if k == 'write': return f"(AWrite {cz(a[1])} {cz(a[2])})"
     if k == 'grow': return f"(AResize {cz(a[2])})"
